@@ -355,3 +355,187 @@ Example ex_api_inode :
          (after_history no_codec (read_at api_img) (len api_img) api_hist) nothing_positioned)
   = Done (Ok (mkInode [6; 4096 + 420; 0; 0; 0; 1] [1] [])).
 Proof. vm_compute. reflexivity. Qed.
+
+(* ================= directory readers created with SQFS_DIR_READER_DOT_ENTRIES =================
+   lib/sqfs/src/dir_reader.c: dcache_key_compare, dcache_add, sqfs_dir_reader_get_inode,
+   _resolve_inum, _open_dir (own and parent lookup), _read ("." / ".." first), _resolve_path
+   (also with a root inode).  include/sqfs/dir_reader.h: such a reader "caches the locations
+   of directory inodes it encounters".  So its answers may depend on WHICH directory inodes
+   were fetched through it — never on the order of the fetches, and an answer once given
+   stays.  The rbtree of lib/util is an abstract type here, used under its contract
+   (DotModel.rbtree_contract: finite map for every comparator that is a strict total order on
+   the keys); what dir_reader.c itself has to provide is such a comparator. *)
+From SqfsV Require Import C10.GenC10Dot C10.DotModel C10.DotProofs.
+
+(* dcache_key_compare is a strict total order on sqfs_u32 keys *)
+Theorem dcache_key_compare_total : strict_total key_compare.
+Proof. exact key_compare_strict_total. Qed.
+Print Assumptions dcache_key_compare_total.
+
+(* "return (int)(lhs - rhs)" is not (0 and 2^31 are each below the other): a comparator of
+   that shape is outside the contract *)
+Theorem dcache_sub_compare_refuted : ~ strict_total sub_compare.
+Proof. exact sub_compare_not_total. Qed.
+
+(* for every two histories (sequences of get_inode / open_dir on any inode value / read on any
+   caller-owned state / resolve_inum / resolve_path, with any arguments, successful or not) of
+   a DOT_ENTRIES reader of the same image whose encounter lists — the (inode number,
+   reference) of every directory inode that sqfs_dir_reader_get_inode fetched, also inside
+   resolve_path — are equal as SETS and assign one reference per number, every later
+   sequence of calls gets the same answers from both readers *)
+Theorem dcache_order_free :
+  forall uncompress file fsize (T : Type) (t_empty : T) t_lookup t_insert,
+  rbtree_contract t_empty t_lookup t_insert ->
+  forall (sb : super) (h1 h2 qs : list dop),
+  let run := drun uncompress file fsize T t_lookup t_insert sb in
+  let d1 := snd (run (dot_create T t_empty sb) h1) in
+  let d2 := snd (run (dot_create T t_empty sb) h2) in
+  same_set (dr_log d1) (dr_log d2) -> functional (dr_log d1) ->
+  fst (run d1 qs) = fst (run d2 qs).
+Proof. exact dcache_order_free_l. Qed.
+Print Assumptions dcache_order_free.
+
+(* a directory inode fetched through the reader resolves after any further history, to the
+   reference of its first fetch *)
+Theorem dcache_lookup_after_insert :
+  forall uncompress file fsize (T : Type) (t_empty : T) t_lookup t_insert,
+  rbtree_contract t_empty t_lookup t_insert ->
+  forall (sb : super) (h : list dop) (ref : N) (i : inode) (ops : list dop),
+  let run := drun uncompress file fsize T t_lookup t_insert sb in
+  let get := dot_get_inode uncompress file fsize T t_lookup t_insert sb in
+  let d := snd (run (dot_create T t_empty sb) h) in
+  fst (get d ref) = Done (Ok i) -> is_dir_inode i = true ->
+  let d1 := snd (get d ref) in
+  exists r, resolve_inum T t_lookup (dr_t (snd (run d1 ops))) (inum_of i) = Ok r /\
+            In (inum_of i, r) (dr_log d1) /\
+            (first_assoc (inum_of i) (dr_log d) = None -> r = ref).
+Proof. exact dcache_lookup_after_insert_l. Qed.
+Print Assumptions dcache_lookup_after_insert.
+
+(* an answer of sqfs_dir_reader_resolve_inum, once given, never changes *)
+Theorem dcache_monotone :
+  forall uncompress file fsize (T : Type) (t_empty : T) t_lookup t_insert,
+  rbtree_contract t_empty t_lookup t_insert ->
+  forall (sb : super) (h ops : list dop) (k r : N),
+  let run := drun uncompress file fsize T t_lookup t_insert sb in
+  let d := snd (run (dot_create T t_empty sb) h) in
+  resolve_inum T t_lookup (dr_t d) k = Ok r ->
+  resolve_inum T t_lookup (dr_t (snd (run d ops))) k = Ok r.
+Proof. exact dcache_answer_stable_l. Qed.
+Print Assumptions dcache_monotone.
+
+(* ---- non-vacuity ---- *)
+
+(* the contract is satisfiable: the association list searched with the comparator (the
+   instance the extracted model of the tie uses) *)
+Theorem dcache_contract_instance : rbtree_contract al_empty al_lookup al_insert.
+Proof. exact al_contract. Qed.
+
+(* why the comparator hypothesis is there: a transcription of lib/util/src/rbtree.c
+   (the rb_ functions of DotModel) finds every key of 1, 2, 2^31+3, 4, 5 with dcache_key_compare and has lost
+   2^31+3 after the fifth insertion with (int)(lhs - rhs) *)
+Example ex_rb_key_compare :
+  map (rb_lookup key_compare (rb_of key_compare adversarial_keys)) adversarial_keys
+  = map (fun k => Some (k + 1000)) adversarial_keys.
+Proof. exact rb_key_compare_finds_all. Qed.
+Example ex_rb_sub_compare :
+  In 2147483651 adversarial_keys /\
+  rb_lookup sub_compare (rb_of sub_compare adversarial_keys) 2147483651 = None.
+Proof. exact rb_sub_compare_loses_key. Qed.
+
+(* an image (written by vlib/sqfsimg.py Builder, 334 bytes): / (inode number 5) with the
+   directories a (2^31+3), b (2), t (2 as well: a twin) and a/c (4).
+   References: c 0, a 32, b 64, t 96, / 128. *)
+Definition dot_img : list N :=
+  [104; 115; 113; 115; 5; 0; 0; 0; 0; 0; 0; 0; 0; 16; 0; 0; 0; 0; 0; 0; 1; 0; 12; 0; 27; 10; 1; 0; 4; 0; 0; 0;
+   128; 0; 0; 0; 0; 0; 0; 0; 78; 1; 0; 0; 0; 0; 0; 0; 70; 1; 0; 0; 0; 0; 0; 0; 255; 255; 255; 255; 255; 255; 255; 255;
+   96; 0; 0; 0; 0; 0; 0; 0; 2; 1; 0; 0; 0; 0; 0; 0; 255; 255; 255; 255; 255; 255; 255; 255; 255; 255; 255; 255; 255; 255; 255; 255;
+   160; 128;
+   1; 0; 237; 1; 0; 0; 0; 0; 0; 0; 0; 0; 4; 0; 0; 0; 0; 0; 0; 0; 2; 0; 0; 0; 3; 0; 0; 0; 3; 0; 0; 128;
+   1; 0; 237; 1; 0; 0; 0; 0; 0; 0; 0; 0; 3; 0; 0; 128; 0; 0; 0; 0; 3; 0; 0; 0; 24; 0; 0; 0; 5; 0; 0; 0;
+   1; 0; 237; 1; 0; 0; 0; 0; 0; 0; 0; 0; 2; 0; 0; 0; 0; 0; 0; 0; 2; 0; 0; 0; 3; 0; 21; 0; 5; 0; 0; 0;
+   1; 0; 237; 1; 0; 0; 0; 0; 0; 0; 0; 0; 2; 0; 0; 0; 0; 0; 0; 0; 2; 0; 0; 0; 3; 0; 21; 0; 5; 0; 0; 0;
+   1; 0; 237; 1; 0; 0; 0; 0; 0; 0; 0; 0; 5; 0; 0; 0; 0; 0; 0; 0; 5; 0; 0; 0; 42; 0; 21; 0; 6; 0; 0; 0;
+   60; 128;
+   0; 0; 0; 0; 0; 0; 0; 0; 1; 0; 0; 0; 0; 0; 0; 0; 1; 0; 0; 0; 99;
+   2; 0; 0; 0; 0; 0; 0; 0; 2; 0; 0; 0; 32; 0; 0; 0; 1; 0; 0; 0; 97; 64; 0; 1; 0; 1; 0; 0; 0; 98; 96; 0; 2; 0; 1; 0; 0; 0; 116;
+   4; 128; 0; 0; 0; 0; 64; 1; 0; 0; 0; 0; 0; 0].
+Definition dot_sb : super := mkSuper 4096 0 2587 1 128 334 326 c10_meta_init_tag 96 258 c10_meta_init_tag c10_meta_init_tag.
+Definition dot_run := drun no_codec (read_at dot_img) (len dot_img) al_t al_lookup al_insert dot_sb.
+Definition dot_new := dot_create al_t al_empty dot_sb.
+(* two histories that fetch /, a and a/c: top down; and bottom up with repetitions, a failed
+   fetch, a lookup that fails at that point and a listing that fails for want of the parent *)
+Definition dot_h1 : list dop := [OGetInode 128; OGetInode 32; OGetInode 0].
+Definition dot_h2 : list dop :=
+  [OGetInode 0; OResolveInum 2147483651; OGetInode 7; OResolvePath (Some (mkInode [1; 16877; 0; 0; 0; 4] [0; 2; 3; 0; 2147483651] [])) [46; 46];
+   OGetInode 32; OGetInode 0; OGetInode 128; OGetInode 32].
+Definition dot_queries : list dop :=
+  [OResolveInum 2147483651;
+   OResolvePath None [97; 47; 99; 47; 46; 46];                         (* "a/c/.." *)
+   OResolvePath None [97; 47; 99; 47; 46; 46; 47; 46; 46; 47; 98];     (* "a/c/../../b" *)
+   OOpenDir (mkInode [1; 16877; 0; 0; 0; 4] [0; 2; 3; 0; 2147483651] []) 0;
+   OResolveInum 2].
+
+Example ex_dot_h2_answers :      (* the second history really contains failures *)
+  fst (dot_run dot_new dot_h2) =
+  [AInode (Done (Ok (mkInode [1; 16877; 0; 0; 0; 4] [0; 2; 3; 0; 2147483651] [])));
+   AInum (Err c_SQFS_ERROR_NO_ENTRY);
+   AInode (Done (Err c_SQFS_ERROR_UNSUPPORTED));
+   APath (Done (Err c_SQFS_ERROR_NO_ENTRY));
+   AInode (Done (Ok (mkInode [1; 16877; 0; 0; 0; 2147483651] [0; 3; 24; 0; 5] [])));
+   AInode (Done (Ok (mkInode [1; 16877; 0; 0; 0; 4] [0; 2; 3; 0; 2147483651] [])));
+   AInode (Done (Ok (mkInode [1; 16877; 0; 0; 0; 5] [0; 5; 42; 21; 6] [])));
+   AInode (Done (Ok (mkInode [1; 16877; 0; 0; 0; 2147483651] [0; 3; 24; 0; 5] [])))].
+Proof. vm_compute. reflexivity. Qed.
+
+(* the hypotheses of dcache_order_free hold for the two histories ... *)
+Example ex_dot_hyps :
+  same_set (dr_log (snd (dot_run dot_new dot_h1))) (dr_log (snd (dot_run dot_new dot_h2))) /\
+  functional (dr_log (snd (dot_run dot_new dot_h1))).
+Proof.
+  assert (E1 : dr_log (snd (dot_run dot_new dot_h1)) = [(5, 128); (2147483651, 32); (4, 0)]) by (vm_compute; reflexivity).
+  assert (E2 : dr_log (snd (dot_run dot_new dot_h2)) = [(4, 0); (2147483651, 32); (4, 0); (5, 128); (2147483651, 32)])
+    by (vm_compute; reflexivity).
+  rewrite E1, E2. split.
+  - intro p. simpl. tauto.
+  - intros k v v' H1 H2. simpl in H1, H2.
+    destruct H1 as [H1|[H1|[H1|[]]]]; destruct H2 as [H2|[H2|[H2|[]]]]; congruence.
+Qed.
+
+(* ... and the common answers are not trivial: a resolves to its reference, "a/c/.." is a,
+   "a/c/../../b" is b, a/c opens with "." = c and ".." = a, b was never fetched *)
+Example ex_dot_answers :
+  fst (dot_run (snd (dot_run dot_new dot_h2)) dot_queries) =
+  [AInum (Ok 32); APath (Done (Ok 32)); APath (Done (Ok 64));
+   AOpen (Ok (mkDs (mkRd 0 258 0 3 0 0) 32 0 0 c10d_STATE_OPENED));
+   AInum (Err c_SQFS_ERROR_NO_ENTRY)].
+Proof. vm_compute. reflexivity. Qed.
+Example ex_dot_same :
+  fst (dot_run (snd (dot_run dot_new dot_h1)) dot_queries) = fst (dot_run (snd (dot_run dot_new dot_h2)) dot_queries).
+Proof. vm_compute. reflexivity. Qed.
+
+(* the hypothesis [functional] is needed: b and its twin t carry the same inode number; the
+   cache keeps the first fetch (dcache_add), so the order of these two fetches shows *)
+Example ex_dot_first_wins :
+  let ha := [OGetInode 64; OGetInode 96] in
+  let hb := [OGetInode 96; OGetInode 64] in
+  same_set (dr_log (snd (dot_run dot_new ha))) (dr_log (snd (dot_run dot_new hb))) /\
+  fst (dot_run (snd (dot_run dot_new ha)) [OResolveInum 2]) = [AInum (Ok 64)] /\
+  fst (dot_run (snd (dot_run dot_new hb)) [OResolveInum 2]) = [AInum (Ok 96)].
+Proof.
+  cbv zeta.
+  assert (E1 : dr_log (snd (dot_run dot_new [OGetInode 64; OGetInode 96])) = [(2, 64); (2, 96)]) by (vm_compute; reflexivity).
+  assert (E2 : dr_log (snd (dot_run dot_new [OGetInode 96; OGetInode 64])) = [(2, 96); (2, 64)]) by (vm_compute; reflexivity).
+  rewrite E1, E2. split; [intro p; simpl; tauto|].
+  split; vm_compute; reflexivity.
+Qed.
+
+(* dcache_lookup_after_insert on the image: a is fetched after c and a failed fetch, then
+   resolves after a further history *)
+Example ex_dot_lookup_after_insert :
+  let d := snd (dot_run dot_new [OGetInode 0; OGetInode 7]) in
+  let get := dot_get_inode no_codec (read_at dot_img) (len dot_img) al_t al_lookup al_insert dot_sb in
+  fst (get d 32) = Done (Ok (mkInode [1; 16877; 0; 0; 0; 2147483651] [0; 3; 24; 0; 5] [])) /\
+  first_assoc 2147483651 (dr_log d) = None /\
+  resolve_inum al_t al_lookup (dr_t (snd (dot_run (snd (get d 32)) dot_h2))) 2147483651 = Ok 32.
+Proof. vm_compute. repeat split; reflexivity. Qed.
